@@ -458,7 +458,14 @@ def scan_duplicates(seeds):
             for link, target in tree.meta.get("symlinks", []):
                 if not os.path.lexists(os.path.join(case_dir, link)):
                     os.symlink(os.path.join(case_dir, target), os.path.join(case_dir, link))
-            cases.append({"id": i, "ops": [{"op": "scan", "path": os.path.join(case_dir, "ws")}, {"op": "dump"}]})
+            ops = [{"op": "scan", "path": os.path.join(case_dir, "ws")}, {"op": "dump"}]
+            # an in-workspace plugin module (entry point of an editable install inside the workspace) is opened,
+            # closed and opened again with its on-disk text: its fixtures stay plugin fixtures
+            reopened = [rel for rel in tree.files if rel.startswith("ws/src/") and rel.endswith("/plugin.py")][:1]
+            for rel in reopened:
+                pth, txt = os.path.join(case_dir, rel), tree.files[rel].replace("@CASE@", case_dir)
+                ops += [{"op": "analyze", "path": pth, "text": txt}, {"op": "close", "path": pth}, {"op": "analyze", "path": pth, "text": txt}, {"op": "dump"}]
+            cases.append({"id": i, "ops": ops})
             metas.append((tree, case_dir))
         obs, _ = core.run_h1(h1, cases, "scan_dups", allow_hang=True)
         for i, (tree, case_dir) in enumerate(metas):
@@ -480,6 +487,13 @@ def scan_duplicates(seeds):
                     if k in seen:
                         dups.append({"usage": u["name"], "file": p_[len(case_dir) + 1:], "line": u["line"]})
                     seen.add(k)
+            if len(o["obs"]) >= 6 and isinstance(o["obs"][5], dict):
+                flags = lambda dd: sorted((nm, x["path"][len(case_dir) + 1:], x["plugin"], x["third"]) for nm, ds in dd["definitions"] for x in ds
+                                          if x["path"].endswith("/plugin.py") and "/ws/src/" in x["path"])
+                f0, f1 = flags(d), flags(o["obs"][5])
+                if f0 and f0 != f1:      # the module was indexed by the scan (it is a plugin module of a recognised install)
+                    bad.append({"why": "after opening, closing and re-opening an in-workspace plugin module with its on-disk text its fixtures are classified differently "
+                                       "(plugin / third-party flags) than after the scan", "after_scan": f0[:6], "after_reopen": f1[:6], "tags": tree.tags})
             if dups:
                 bad.append({"why": "after scan_workspace of a fresh tree the index holds records twice (a sequential single analysis of each file holds each once)",
                             "recorded_twice": dups[:8], "files": {k: v for k, v in tree.files.items() if k.startswith("ws/") and ".venv" not in k}, "tags": tree.tags})
